@@ -87,6 +87,8 @@ def ops_for(kind):
     ops += [('q', 'x', '0!'), ('qi', 'ix', '0!'), ('q2', 'x', 'y'), ('q2d', 'x', 2, 'y', 1, 'x', 0)]
     # execute(): "repeatedly calls execute_once" - all steps, or at most two
     ops += [('exec', -1), ('exec', 2)]
+    # one and the same Event object queued twice: two events
+    ops += [('qsame', 'x')]
     return ops
 
 
@@ -187,6 +189,11 @@ def apply_op(it, ref, op, listener_log):
         s1 = ref.queue(op[1], 0)
         s2 = ref.queue(op[2], 0)
         it.queue(Event(op[1], s=s1), Event(op[2], s=s2))
+    elif k == 'qsame':
+        s1 = ref.queue(op[1], 0)
+        ref._put(ref.external, ref.now, s1, op[1])
+        ev = Event(op[1], s=s1)
+        it.queue(ev, ev)
     elif k == 'qi':
         s = ref.queue(op[1], op[2], internal=True)
         ev = InternalEvent(op[1], s=s, delay=0) if op[2] == '0!' else (
@@ -316,7 +323,7 @@ def enabled(ref, op):
         return len(ref.external) < CAP
     if op[0] == 'qc':
         return len(ref.external) < CAP
-    if op[0] == 'q2':
+    if op[0] in ('q2', 'qsame'):
         return len(ref.external) < CAP - 1
     if op[0] == 'q2d':
         return len(ref.external) < CAP - 2
